@@ -219,6 +219,12 @@ func (a *allocSem) run(fn *ssa.Function, st0 aState, args []aVal, depth int, top
 			if c, isC := v.(*ssa.Const); isC && c.Value != nil && c.Value.Kind() == constant.Int && constant.Sign(c.Value) < 0 {
 				return aVal{k: akNegConst}
 			}
+			if c, isC := v.(*ssa.Const); isC && c.Value != nil && c.Value.Kind() == constant.Bool {
+				if constant.BoolVal(c.Value) {
+					return aVal{k: akTrue}
+				}
+				return aVal{k: akFalse}
+			}
 			return aVal{}
 		}
 		prop := func(to *ssa.BasicBlock, s aState) {
@@ -244,13 +250,32 @@ func (a *allocSem) run(fn *ssa.Function, st0 aState, args []aVal, depth int, top
 			case *ssa.Phi:
 				var r aVal
 				first := true
-				for _, e := range x.Edges {
+				// a value that describes the CURRENT offset on every incoming path (a lookup of, or a load
+				// of, the offset as it is when control leaves that predecessor) describes the current
+				// offset of the joined state
+				current := len(x.Edges) == len(b.Preds)
+				var kind aKind
+				for i, e := range x.Edges {
 					v := val(e)
 					if first {
 						r, first = v, false
 					} else if v != r {
 						r = aVal{}
 					}
+					if current {
+						es, has := edges[[2]int{b.Preds[i].Index, b.Index}]
+						switch {
+						case !has || es.dead:
+							// no state has come along this edge (yet): it does not constrain the value
+						case (v.k == akOK || v.k == akNotOK || v.k == akOff || v.k == akID) && v.ver == es.ver && (kind == 0 || kind == v.k):
+							kind = v.k
+						default:
+							current = false
+						}
+					}
+				}
+				if current && kind != 0 && r.k == akOther {
+					r = aVal{kind, st.ver}
 				}
 				vals[x] = r
 			case *ssa.UnOp:
@@ -271,6 +296,10 @@ func (a *allocSem) run(fn *ssa.Function, st0 aState, args []aVal, depth int, top
 						vals[x] = aVal{akNeNever, v.ver}
 					case akNeNever:
 						vals[x] = aVal{akEqNever, v.ver}
+					case akTrue:
+						vals[x] = aVal{k: akFalse}
+					case akFalse:
+						vals[x] = aVal{k: akTrue}
 					case akCallBool:
 						vals[x] = aVal{akNotCallBool, v.ver}
 					case akNotCallBool:
@@ -405,6 +434,39 @@ func (a *allocSem) run(fn *ssa.Function, st0 aState, args []aVal, depth int, top
 						st = js
 					}
 					postCall[x] = st
+					boolAt := -1
+					for k := 0; k < callee.Signature.Results().Len(); k++ {
+						if bt, isB := callee.Signature.Results().At(k).Type().Underlying().(*types.Basic); isB && bt.Kind() == types.Bool {
+							boolAt = k
+						}
+					}
+					if boolAt >= 0 && len(jv) > 1 {
+						// (value, ok): the other results are what the returns with ok != false deliver; using
+						// them after ok == false meets a state (the join of those returns) in which nothing is
+						// known to be free, so a mark made there is reported
+						for k := range jv {
+							if k == boolAt {
+								continue
+							}
+							var v aVal
+							first := true
+							for _, r := range rs {
+								if boolAt < len(r.vals) && r.vals[boolAt].k == akFalse {
+									continue
+								}
+								if k >= len(r.vals) {
+									v = aVal{}
+									break
+								}
+								if first {
+									v, first = r.vals[k], false
+								} else if v != r.vals[k] {
+									v = aVal{}
+								}
+							}
+							jv[k] = v
+						}
+					}
 					for k := range jv {
 						if k < callee.Signature.Results().Len() {
 							if bt, isB := callee.Signature.Results().At(k).Type().Underlying().(*types.Basic); isB && bt.Kind() == types.Bool && jv[k].k == akOther {
@@ -445,9 +507,9 @@ func (a *allocSem) run(fn *ssa.Function, st0 aState, args []aVal, depth int, top
 					if c.ver == st.ver {
 						sF.cycle = true
 					}
-				case akEqNever:
+				case akEqNever, akFalse:
 					sT.dead = true
-				case akNeNever:
+				case akNeNever, akTrue:
 					sF.dead = true
 				case akCallBool, akNotCallBool:
 					// the outcomes of the helper are kept apart by the boolean it returned
